@@ -74,6 +74,7 @@ def run(ctx):
         ctx.ob('C10.3', f, 'validate-before-create', not late,
                '%d validation return(s); %s' % (len(local_errs), 'none is reachable after create_continuity' if not late else 'one at line %s is reachable AFTER the child thread was created' % late[0][1].get('ln')),
                line=late[0][1].get('ln') if late else cc.line)
+    c104(ctx)
     # create_continuity itself: first frame is ContinuityCreated with seq 0
     c = P.fn(STORE + 'create_continuity')
     ctx.touch(c)
@@ -85,3 +86,49 @@ def run(ctx):
     o = c.origin(agg['a'][agg['fields'].index('kind')])
     ctx.ob('C10.2', c, 'creation-frame', seqk is not None and seqk.get('v') == '0' and o[0] == 'rv' and o[1].get('variant') == 'ContinuityCreated',
            'first frame is %s at seq %s' % (o[1].get('variant') if o[0] == 'rv' else '?', seqk.get('v') if seqk else '?'), line=ap[0].line)
+
+
+def c104(ctx):
+    """a handoff always carries a resolvable summary: the request is refused unless a summary text
+    or artifact id is present, and the frame must carry exactly the values that test saw (plus an
+    artifact id minted from the text) — a value re-derived after the test escapes it."""
+    from ..core import switches
+    P = ctx.prog
+    ctx.rule('C10.4', 'handoff summary: the "summary required" refusal tests summary_markdown / summary_artifact_id, and the summary_markdown / summary_artifact_id stored in the ContinuityHandoffCreated frame are those very locals (the artifact id possibly re-assigned from write_bundle_v1): no filtered or re-derived copy is stored.')
+    f = P.fn(STORE + 'handoff')
+    ctx.touch(f)
+    # locals tested by is_none in the validation (before create_continuity)
+    cc = f.calls(r'ContinuityStore::create_continuity$')[0]
+    tested = {}
+    for t in f.calls(r'core::option::Option::<T>::is_none$|core::option::Option::<T>::is_some$'):
+        if f.can_reach(cc.bb, t.bb):
+            continue
+        r = f.root_local(t.args[0])
+        if r is not None and f.locals[r].get('n') in ('summary_markdown', 'summary_artifact_id'):
+            tested[f.lname(r)] = r
+    for nm in ('summary_markdown', 'summary_artifact_id'):
+        if nm not in tested:
+            ctx.ob('C10.4', f, 'summary-tested:' + nm, False, 'the refusal no longer tests `%s` before the child thread is created' % nm, line=f.line)
+    ap = f.calls(APPEND)[0]
+    evl, agg = event_aggregate_for(f, ap)
+    o = f.origin(agg['a'][agg['fields'].index('kind')])
+    if not (o[0] == 'rv' and o[1].get('variant') == 'ContinuityHandoffCreated'):
+        raise CheckError('C10.4: handoff lineage frame not found')
+    kv = o[1]
+    for nm in ('summary_markdown', 'summary_artifact_id'):
+        op = kv['a'][kv['fields'].index(nm)]
+        r = f.root_local(op)
+        same = r is not None and r == tested.get(nm)
+        ctx.ob('C10.4', f, 'frame-carries-validated:' + nm, same,
+               'ContinuityHandoffCreated.%s is %s' % (nm, 'the local the refusal tested' if same else
+                                                      'NOT the value the "summary required" test saw (a copy re-derived after the test): the frame can carry neither text nor artifact'), line=ap.line)
+    # the only re-assignment of the artifact id is from the bundle writer
+    aid = tested.get('summary_artifact_id')
+    if aid is not None:
+        defs = f.defs(aid)
+        bad = []
+        for d in defs[1:] if len(defs) > 1 else []:
+            src = sources(f, {'c': {'l': aid}})
+        wr = [x for x in sources(f, {'c': {'l': aid}}) if x[0] == 'call']
+        okw = all(re.search(r'write_bundle_v1$', x[1]) for x in wr)
+        ctx.ob('C10.4', f, 'artifact-id-only-from-writer', okw, 'summary_artifact_id is only ever re-assigned from write_bundle_v1 (%s)' % sorted(x[1].rsplit('::', 1)[-1] for x in wr), line=f.line)
